@@ -599,6 +599,24 @@ func (mn mon) Run(sh drv.Shard, c *drv.Ctx) {
 				return
 			}
 			c.Add("probe_records_judged", int64(n))
+			// the two entry points that end the process: one complete record, then exit status 1
+			for _, via := range []string{"Fatal", "Fatalf"} {
+				r, code, err := srcprobe.RunFatal(pp, "text", via)
+				if err != nil {
+					c.Inconclusive("probe program: " + err.Error())
+					return
+				}
+				c.Eval(1)
+				c.DistinctStr("srcprobe " + r.Probe + " " + via)
+				c.Add("probe_fatal_records_judged", 1)
+				if strings.Count(r.Out, "\n") != 1 || !strings.HasSuffix(r.Out, "\n") || !strings.Contains(r.Out, "FATAL") {
+					c.Violate("fatal-record:"+r.Probe+":"+via, map[string]any{"srcprobe": r}, "exactly one newline-terminated record at level FATAL before the process ends", fmt.Sprintf("%q (exit status %d)", r.Out, code))
+					continue
+				}
+				if k, e, o := judgeProbe(r); k != "" {
+					c.Violate(k, map[string]any{"srcprobe": r}, e, o)
+				}
+			}
 		}
 	case "pool":
 		// every record below is logged right after a record of another size went through the shared
@@ -702,6 +720,23 @@ func (mn mon) Replay(v drv.Violation, c *drv.Ctx) {
 	if json.Unmarshal(v.Case, &pr) == nil && pr.R != nil {
 		// re-run the probe program of that build variant and judge the same call site again
 		for _, pp := range srcprobe.Probes() {
+			if strings.HasPrefix(pr.R.Via, "Fatal") {
+				r, code, err := srcprobe.RunFatal(pp, "text", pr.R.Via)
+				if err != nil {
+					c.Inconclusive("replay: " + err.Error())
+					return
+				}
+				if r.Probe != pr.R.Probe {
+					continue
+				}
+				c.Eval(1)
+				if strings.Count(r.Out, "\n") != 1 || !strings.HasSuffix(r.Out, "\n") || !strings.Contains(r.Out, "FATAL") {
+					c.Violate("fatal-record:"+r.Probe+":"+r.Via, map[string]any{"srcprobe": r}, "exactly one newline-terminated record at level FATAL before the process ends", fmt.Sprintf("%q (exit status %d)", r.Out, code))
+				} else if k, e, o := judgeProbe(r); k != "" {
+					c.Violate(k, map[string]any{"srcprobe": r}, e, o)
+				}
+				return
+			}
 			recs, err := srcprobe.Run(pp)
 			if err != nil {
 				c.Inconclusive("replay: " + err.Error())
